@@ -11,7 +11,8 @@ Items == {"intEntity", "extEntity", "paramEntity", "unparsedEntity", "extSubsetS
 Forbidden == {"intEntity", "extEntity", "paramEntity", "unparsedEntity", "extSubsetSystem",
               "extSubsetPublic"}
 Defuses == {"always", "remote", "nonlocal", "never"}
-Localities == {"local", "remote", "none"}       \* "none": text / bytes / streams have no URL
+Localities == {"local", "remote", "none"}       \* class of the resource's URL; data (text / bytes / streams) has
+                                                \* the class of the base URL supplied with it, "none" without one
 Applies(defuse, loc) == CASE defuse = "always"   -> TRUE
                           [] defuse = "never"    -> FALSE
                           [] defuse = "remote"   -> loc = "remote"
